@@ -44,6 +44,24 @@ def configs(tier):
         out.append((dict(name=name, procs=procs, jobs=jobs, script=script,
                          pool=pk, oracle='c08'), b,
                     4000 if not T else 60000))
+    # without helper threads: the embedder (here the user vthread) drives
+    # the handlers itself
+    nothreads = [
+        ('nothreads/idle/1proc', 1, [], ['sleep:0.5', 'terminate',
+                                         'terminate'], {}),
+        ('nothreads/idle/2proc', 2, [], ['terminate'], {}),
+        ('nothreads/after-results/2proc', 2, OK2,
+         S(2) + ['pump:3', 'terminate'], {}),
+        ('nothreads/in-task/2proc', 2, SL + [('apply', 'ok', 2)],
+         S(2) + ['pump:2', 'terminate'], {}),
+        ('nothreads/queued/1proc', 1, SL2, S(3) + ['pump:1', 'terminate'],
+         {}),
+    ]
+    for name, procs, jobs, script, pk in nothreads:
+        b = 1 if not T else 2
+        out.append((dict(name=name, procs=procs, jobs=jobs, script=script,
+                         pool=pk, oracle='c08', threads=False), b,
+                    4000 if not T else 60000))
     return out
 
 
